@@ -245,6 +245,9 @@ def header(origin):
 #                                            everything yielded (the generator run to its end)
 #   [a, b], self.m()                         list display; another translated method run on the current attribute values
 #   <expr> listed in the spec's `whole`      read as the spec says (operations on dynamically typed values: `x is None`, `n != x`)
+#   join=True (spec)                         the statements after an if / try become ONE auxiliary definition `f.kN` of the variables
+#                                            they read (no textual copies; function level only); locals_={"c": Optional type}: a value
+#                                            of the base type assigned to such a local is wrapped in `some`, `None` is `none`
 #   f(...), obj.m(...), isinstance, attrs    only through the tables of the spec (`externals`, `isinstance_map`, `attrs`,
 #                                            `consts`); an external marked partial is Except-valued
 #
